@@ -114,9 +114,22 @@ D9 == [prolog |-> <<>>, nodes |-> <<
   El(7, "selfish"), El(7, "a-b"), TxC(10, <<51>>), El(7, "div"), Tx(12, "2"), El(2, "or"), El(2, "and"), Tx(15, "1"),
   El(2, "mod"), El(2, "textual"), El(2, "andy"), El(2, "orb") >>]
 
-\* D7 is used by the family "ctx" only, D8 by "ns", D9 by "kw", the generated ones by "g1"
-DocSeq == IF Tier = "tiny" THEN <<D1>> ELSE <<D1, D2, D3, D4, D5, D6, D7, D8, D9>> \o GenDocSeq
-NFixed == 9
+\* default namespace on elements and its undeclaration (no attributes: an unprefixed attribute in the scope
+\* of a default namespace is reported in that namespace by xml_dom::AsExpandedName - C10, outside /repo/xpath)
+\* <a xmlns="u1"><b>1<c xmlns=""><b/></c></b><p:c xmlns:p="u2"/></a>
+DefNs(p, uri) == NsN(p, <<>>, Cp(uri))
+ElU(p, n, uri) == Nd("elem", p, <<>>, Cp(n), Cp(uri), <<>>)
+D10 == [prolog |-> <<>>, nodes |-> <<
+  RootN,
+  ElU(1, "a", "u1"), XmlNs(2), DefNs(2, "u1"),
+  ElU(2, "b", "u1"), XmlNs(5), DefNs(5, "u1"), Tx(5, "1"),
+  El(5, "c"), XmlNs(9),
+  El(9, "b"), XmlNs(11),
+  ElQ(2, "p", "c", "u2"), XmlNs(13), DefNs(13, "u1"), NsN(13, Cp("p"), Cp("u2")) >>]
+
+\* D7 is used by the family "ctx" only, D8 and D10 by "ns", D9 by "kw", the generated ones by "g1"
+DocSeq == IF Tier = "tiny" THEN <<D1>> ELSE <<D1, D2, D3, D4, D5, D6, D7, D8, D9, D10>> \o GenDocSeq
+NFixed == 10
 \* caller-side namespace bindings (prefixes of the expression context; note the swapped ones)
 BindSeq == << <<>>,
               << <<Cp("r"), Cp("u1")>> >>,
@@ -227,7 +240,7 @@ Seeds ==
   \cup (IF "p2" \in Families THEN { [fam |-> "p2", d |-> k, a |-> ax, b |-> 1] : k \in MainDocs, ax \in UsedAxes } ELSE {})
   \cup UNION { { [fam |-> f, d |-> k, a |-> "-", b |-> 1] : k \in DocsFor(f) } : f \in Families \ {"p1", "p2", "ar", "ar3", "ctx", "ns", "kw"} }
   \cup (IF "ctx" \in Families THEN { [fam |-> "ctx", d |-> k, a |-> "-", b |-> 1] : k \in 1..7 } ELSE {})
-  \cup (IF "ns" \in Families THEN { [fam |-> "ns", d |-> 8, a |-> "-", b |-> k] : k \in 1..Len(BindSeq) } ELSE {})
+  \cup (IF "ns" \in Families THEN { [fam |-> "ns", d |-> dd, a |-> "-", b |-> k] : dd \in {8, 10}, k \in 1..Len(BindSeq) } ELSE {})
   \cup (IF "ar" \in Families THEN { [fam |-> f, d |-> 1, a |-> o, b |-> 1] : f \in {"ar", "ar3"}, o \in ArOps } ELSE {})
   \cup { [fam |-> "g1", d |-> NFixed + k, a |-> ax, b |-> 1] : k \in 1..Len(GenDocSeq), ax \in UsedAxes }
   \cup (IF "kw" \in Families THEN { [fam |-> "kw", d |-> 9, a |-> "-", b |-> 1] } ELSE {})
